@@ -72,6 +72,11 @@ func (s subject) interpretable() bool {
 	seen := map[string]int{}
 	for _, a := range s.attrs() {
 		seen[a.T]++
+		if a.T == "X" {
+			// an attribute type outside the named set is printed as "1.2.3.4=#<hex>", which notation deliberately
+			// refuses to interpret ("does not support ... =#"): such a leaf fails closed
+			return false
+		}
 	}
 	for _, m := range mandatory {
 		if seen[m] == 0 {
@@ -192,7 +197,7 @@ func completed(as []attr) []attr {
 	return out
 }
 
-func derive(s subject, interAttrs, rootAttrs []attr) []idList {
+func derive(s subject, interAttrs, rootAttrs []attr, printed string) []idList {
 	base := completed(s.attrs())
 	var out []idList
 	add := func(label string, judged bool, ids ...identity) {
@@ -237,6 +242,14 @@ func derive(s subject, interAttrs, rootAttrs []attr) []idList {
 		}
 		add("near-miss-other-value:"+t, true, mkIdentity(replaceV(base, t, second[t]), ",", false))
 		add("near-miss-extension:"+t, true, mkIdentity(replaceV(base, t, cur+"x"), ",", false))
+		add("near-miss-colon-extension:"+t, true, mkIdentity(replaceV(base, t, cur+":x"), ",", false))
+		if len(cur) > 2 {
+			// a blank inserted into / removed from the value: another value
+			add("near-miss-blank-inserted:"+t, true, mkIdentity(replaceV(base, t, cur[:len(cur)/2]+" "+cur[len(cur)/2:]), ",", false))
+			if strings.Contains(cur, " ") {
+				add("near-miss-blank-removed:"+t, true, mkIdentity(replaceV(base, t, strings.ReplaceAll(cur, " ", "")), ",", false))
+			}
+		}
 		if len(cur) > 1 {
 			add("near-miss-prefix:"+t, true, mkIdentity(replaceV(base, t, cur[:len(cur)-1]), ",", false))
 		}
@@ -246,6 +259,20 @@ func derive(s subject, interAttrs, rootAttrs []attr) []idList {
 				sw = strings.ToLower(cur)
 			}
 			add("near-miss-case:"+t, true, mkIdentity(replaceV(base, t, sw), ",", false))
+		}
+	}
+	// identities written exactly like the certificate prints its own subject (and near misses of that very string)
+	if s.Clean && printed != "" {
+		out = append(out, idList{Label: "printed-form-exact", Judged: true, IDs: []identity{{Raw: "x509.subject:" + printed, Attrs: s.attrs(), X509: true}}})
+		for _, a := range s.attrs() {
+			if strings.Contains(a.V, " ") && strings.Count(printed, a.V) == 1 {
+				nv := strings.ReplaceAll(a.V, " ", "")
+				out = append(out, idList{Label: "printed-form-blank-removed:" + a.T, Judged: true, IDs: []identity{{Raw: "x509.subject:" + strings.Replace(printed, a.V, nv, 1), Attrs: replaceV(s.attrs(), a.T, nv), X509: true}}})
+			}
+			if len(a.V) > 2 && !strings.Contains(a.V, " ") && strings.Count(printed, "="+a.V) == 1 {
+				nv := a.V[:len(a.V)/2] + " " + a.V[len(a.V)/2:]
+				out = append(out, idList{Label: "printed-form-blank-inserted:" + a.T, Judged: true, IDs: []identity{{Raw: "x509.subject:" + strings.Replace(printed, "="+a.V, "="+nv, 1), Attrs: replaceV(s.attrs(), a.T, nv), X509: true}}})
+			}
 		}
 	}
 	add("subject-of-intermediate", true, mkIdentity(interAttrs, ",", false))
@@ -459,6 +486,7 @@ func main() {
 		odd("value-with-leading-blank", []attr{full[0]}, []attr{full[1]}, []attr{full[2]}, []attr{{"CN", " x"}}),
 		odd("value-with-plus", []attr{full[0]}, []attr{full[1]}, []attr{full[2]}, []attr{{"CN", "x+OU=eng"}}),
 		odd("value-with-quote-and-equals", []attr{full[0]}, []attr{full[1]}, []attr{full[2]}, []attr{{"CN", `q"r=s`}}),
+		odd("value-with-colon", []attr{full[0]}, []attr{full[1]}, []attr{full[2]}, []attr{{"CN", "build:release"}}),
 		odd("value-looks-like-attribute", []attr{full[0]}, []attr{full[1]}, []attr{{"O", "Acme,O=ZetaCo"}}),
 	)
 	r.Extra["subjects"] = len(subjects)
@@ -499,7 +527,7 @@ func main() {
 	r.Parallel(len(subjects), func(i int) {
 		s := subjects[i]
 		ch := w.leafFor(s, i)
-		lists := derive(s, w.interAttrs, w.rootAttrs)
+		lists := derive(s, w.interAttrs, w.rootAttrs, ch.Leaf().Cert.Subject.String())
 		if i == 0 {
 			nLists = len(lists)
 		}
